@@ -120,3 +120,119 @@ func signatureOver(blob []byte, header, footer string) []byte {
 	h := sha256.Sum256(signedText(blob, header, footer))
 	return signRaw(fam.other, emsa(h[:], fam.k))
 }
+
+// Neighbours on the SIGNATURE side: the key blob K is the one that was signed, the signature presented is a byte
+// string other than the genuine S(K) - S with bytes in front (a zero byte, zero byte + junk, junk), bytes behind,
+// a byte dropped at either end, a leading zero of S stripped, S twice, one byte flipped. None of them is what the
+// services key produced for K (an RSA signature is exactly as long as the modulus), so each must be refused.
+var sigNeighbourKinds = []string{"00+S", "00+junk1+S", "00+junk2+S", "00+junk17+S", "0000+S", "junk1+S", "ff+S", "S+00", "S+junk3", "S-without-first-byte", "S-without-last-byte",
+	"S-leading-zeros-stripped", "S+S", "first-byte-flipped", "last-byte-flipped", "middle-byte-flipped", "empty", "all-zero-of-modulus-length", "00+S-without-last-byte"}
+
+func sigNeighbour(sig []byte, kind string) []byte {
+	c := append([]byte(nil), sig...)
+	junk := func(n int) []byte {
+		j := make([]byte, n)
+		for i := range j {
+			j[i] = byte(0xA5 + i*31)
+		}
+		return j
+	}
+	cat := func(parts ...[]byte) []byte {
+		var o []byte
+		for _, p := range parts {
+			o = append(o, p...)
+		}
+		return o
+	}
+	switch kind {
+	case "00+S":
+		return cat([]byte{0}, c)
+	case "00+junk1+S":
+		return cat([]byte{0}, junk(1), c)
+	case "00+junk2+S":
+		return cat([]byte{0}, junk(2), c)
+	case "00+junk17+S":
+		return cat([]byte{0}, junk(17), c)
+	case "0000+S":
+		return cat([]byte{0, 0}, c)
+	case "junk1+S":
+		return cat(junk(1), c)
+	case "ff+S":
+		return cat([]byte{0xff}, c)
+	case "S+00":
+		return cat(c, []byte{0})
+	case "S+junk3":
+		return cat(c, junk(3))
+	case "S-without-first-byte":
+		return c[1:]
+	case "S-without-last-byte":
+		return c[:len(c)-1]
+	case "S-leading-zeros-stripped":
+		i := 0
+		for i < len(c) && c[i] == 0 {
+			i++
+		}
+		if i == 0 {
+			return nil
+		}
+		return c[i:]
+	case "S+S":
+		return cat(c, c)
+	case "first-byte-flipped":
+		c[0] ^= 0x01
+	case "last-byte-flipped":
+		c[len(c)-1] ^= 0x01
+	case "middle-byte-flipped":
+		c[len(c)/2] ^= 0x10
+	case "empty":
+		return []byte{}
+	case "all-zero-of-modulus-length":
+		return make([]byte, len(c))
+	case "00+S-without-last-byte":
+		return cat([]byte{0}, c[:len(c)-1])
+	}
+	return c
+}
+
+// judgeSigNeighbours: one key-blob length; the blob's genuine signature is varied.
+func judgeSigNeighbours(n int) int64 {
+	k := blobOfLen(n)
+	sig := genuineSig(k)
+	if sig == nil {
+		rep.Count("sig_side_neighbour_genuine_pair_refused", 1)
+		rep.Unspec(1)
+		sig = signatureOver(k, framings[0][0], framings[0][1])
+	}
+	var calls int64
+	for _, kind := range sigNeighbourKinds {
+		ns := sigNeighbour(sig, kind)
+		if ns == nil {
+			continue
+		}
+		c := Case{Part: "sig-side-neighbour", Entry: "VerifySignature", Content: kind, SigLen: n}
+		var accepted bool
+		pk, frame, pan := engine.Guard(func() {
+			accepted = user.VerifySignature(append([]byte(nil), k...), append([]byte(nil), ns...))
+		})
+		calls++
+		rep.Eval(1)
+		if pan {
+			fail("sig/VerifySignature/panic/"+frame+"/"+pk+"/signature-neighbour", n, c, "panic %s for a signature of %d bytes (%s)", pk, len(ns), kind)
+			continue
+		}
+		if accepted {
+			fail("sig/VerifySignature/forgery-accepted/neighbour-of-genuine-signature/"+kind, n, c,
+				"key blob of %d bytes: the %d-byte string %s (S = its genuine %d-byte signature) was accepted", n, len(ns), kind, len(sig))
+		}
+	}
+	return calls
+}
+
+// sigNeighbourFamily: key-blob lengths 0..maxLen. Signatures whose first byte is zero (needed by one kind) occur
+// for about one blob in 256; the count of blobs that had one is reported.
+func sigNeighbourFamily(maxLen int) int64 {
+	var total int64
+	engine.ParallelFor(maxLen+1, func(_, n int) { atomic.AddInt64(&total, judgeSigNeighbours(n)) })
+	rep.Extra("sig_side_neighbour_menu", fmt.Sprintf("every key-blob length 0..%d x %v", maxLen, sigNeighbourKinds))
+	return total
+}
